@@ -12,11 +12,11 @@ func GetNalusFromSample(sample []byte) ([][]byte, error) {
 		return nil, fmt.Errorf("less than 4 bytes, No NALUs")
 	}
 	naluList := make([][]byte, 0, 2)
-	var pos uint32 = 0
-	for pos < uint32(length-4) {
-		naluLength := binary.BigEndian.Uint32(sample[pos : pos+4])
+	var pos uint64 = 0
+	for pos+4 < uint64(length) {
+		naluLength := uint64(binary.BigEndian.Uint32(sample[pos : pos+4]))
 		pos += 4
-		if int(pos+naluLength) > len(sample) {
+		if pos+naluLength > uint64(length) {
 			return nil, fmt.Errorf("NALU length fields are bad. Not video?")
 		}
 		naluList = append(naluList, sample[pos:pos+naluLength])
